@@ -427,6 +427,92 @@ fn enum_hist(syms: &[HOp], prefix: &mut Vec<HOp>, depth: usize, max: usize, f: &
     }
 }
 
+/// Empty values: whether a base accepts them is the base's business; the write-cache is an ordered
+/// map with commit like for any other value. Every sequence of up to 3 operations {set k empty,
+/// set k "v", remove k, set j empty} in a cache over a base that accepts empty values (three bases:
+/// empty, k present, k present with an empty value), one and two cache levels: get / range of every
+/// level agree with a BTreeMap, and so does the base after commit.
+fn c06_empty_values(ctx: &Ctx) -> u64 {
+    let ops: [(&str, &[u8], Option<&[u8]>); 4] = [("set k empty", b"k", Some(b"")), ("set k v", b"k", Some(b"v")), ("remove k", b"k", None), ("set j empty", b"j", Some(b""))];
+    let mut seqs: Vec<Vec<usize>> = vec![];
+    let mut layer: Vec<Vec<usize>> = vec![vec![]];
+    for _ in 0..3 {
+        let mut next = vec![];
+        for sq in &layer {
+            for i in 0..ops.len() {
+                let mut x = sq.clone();
+                x.push(i);
+                next.push(x);
+            }
+        }
+        seqs.extend(next.iter().cloned());
+        layer = next;
+    }
+    let bases: Vec<Map> = vec![Map::new(), [(b"k".to_vec(), b"old".to_vec()), (b"m".to_vec(), b"mm".to_vec())].into_iter().collect(), [(b"k".to_vec(), vec![]), (b"a".to_vec(), b"aa".to_vec())].into_iter().collect()];
+    let mut n = 0u64;
+    for (bi, base0) in bases.iter().enumerate() {
+        for sq in &seqs {
+            for split in 0..=sq.len() {
+                // the first `split` operations in the lower cache, the rest in a cache stacked on it
+                n += 1;
+                let case = || json!({"engine": "kv-overlay", "stage": "empty-values", "base": bi, "operations": sq.iter().map(|i| ops[*i].0).collect::<Vec<_>>(), "operations_in_lower_cache": split});
+                let r = catch(|| {
+                    let mut base = LenientStorage { data: base0.clone() };
+                    let mut model = base0.clone();
+                    let mut problems: Vec<String> = vec![];
+                    {
+                        let mut lower = Overlay::new(&base);
+                        for i in &sq[..split] {
+                            match ops[*i].2 {
+                                Some(v) => { lower.set(ops[*i].1, v); model.insert(ops[*i].1.to_vec(), v.to_vec()); }
+                                None => { lower.remove(ops[*i].1); model.remove(ops[*i].1); }
+                            }
+                        }
+                        let pending_upper = {
+                            let mut upper = Overlay::new(&lower);
+                            for i in &sq[split..] {
+                                match ops[*i].2 {
+                                    Some(v) => { upper.set(ops[*i].1, v); model.insert(ops[*i].1.to_vec(), v.to_vec()); }
+                                    None => { upper.remove(ops[*i].1); model.remove(ops[*i].1); }
+                                }
+                            }
+                            for k in [&b"k"[..], b"j", b"m", b"a"] {
+                                if upper.get(k) != model.get(k).cloned() {
+                                    problems.push(format!("upper get({}) = {:?}, map says {:?}", show(k), upper.get(k), model.get(k)));
+                                }
+                            }
+                            for order in [Order::Ascending, Order::Descending] {
+                                let got: Vec<(Vec<u8>, Vec<u8>)> = upper.range(None, None, order).collect();
+                                if got != model_range(&model, None, None, order) {
+                                    problems.push(format!("upper range {} = {:?}", ord_name(order), got.iter().map(|(k, v)| format!("{}={}", show(k), show(v))).collect::<Vec<_>>()));
+                                }
+                            }
+                            upper.prepare()
+                        };
+                        pending_upper.commit(&mut lower);
+                        let got: Vec<(Vec<u8>, Vec<u8>)> = lower.range(None, None, Order::Ascending).collect();
+                        if got != model_range(&model, None, None, Order::Ascending) {
+                            problems.push("lower cache after the upper one was committed into it differs from the map".into());
+                        }
+                        let pending = lower.prepare();
+                        pending.commit(&mut base);
+                    }
+                    if base.data != model {
+                        problems.push(format!("base after commit = {:?}, map says {:?}", base.data.iter().map(|(k, v)| format!("{}={}", show(k), show(v))).collect::<Vec<_>>(), model.iter().map(|(k, v)| format!("{}={}", show(k), show(v))).collect::<Vec<_>>()));
+                    }
+                    problems
+                });
+                match r {
+                    Ok(p) if p.is_empty() => {}
+                    Ok(p) => ctx.violation("c06:empty-values:differs-from-ordered-map", json!({"case": case(), "differences": p})),
+                    Err(p) => ctx.violation("c06:empty-values:panic", json!({"case": case(), "panic": p})),
+                }
+            }
+        }
+    }
+    n
+}
+
 pub fn run_c06(ctx: &Ctx) -> i32 {
     let evals = AtomicU64::new(0);
     let states = AtomicU64::new(0);
@@ -597,6 +683,9 @@ pub fn run_c06(ctx: &Ctx) -> i32 {
         parts.push(json!({"part": "long-logs", "pending_operations_before_the_tail": fillers, "tail_max_len": tail_max, "levels": [1, 2], "sequences": n}));
     }
 
+    let empty_cases = c06_empty_values(ctx);
+    evals.fetch_add(empty_cases, Relaxed);
+    parts.push(json!({"part": "empty-values-over-a-base-that-accepts-them", "cases": empty_cases}));
     let n_states = states.load(Relaxed);
     let coverage = json!({
         "states": n_states,
